@@ -1143,3 +1143,933 @@ Example ex_failing_window :
 Proof.
   cbv zeta. split; [ex_reach|]. split; [eexists; split; vm_compute; reflexivity|vm_compute; reflexivity].
 Qed.
+
+(** * Soundness of the executable specification K_P
+
+    [kaccepts c]: every observation of the case equals what [kstep] predicts
+    (this is what the absence of tags 2..7 means, lemma [check_clean_kaccepts]).
+    For an accepted case the observations themselves satisfy the property; the
+    clause proved here is no-use-after-close, stated on the observations only:
+    whenever a handle is reported closed, every thread that was reported to
+    have received that handle has, by then, an applied release event. *)
+
+Definition trace := list (event * obs).
+
+Fixpoint kaccepts_from (ks : kstate) (c : trace) : bool :=
+  match c with
+  | [] => true
+  | (e, r) :: c' => let '(ks', rk) := kstep ks e in obs_eqb (canon r) rk && kaccepts_from ks' c'
+  end.
+
+Definition kaccepts (c : trace) : bool := kaccepts_from kinit c.
+
+Lemma ktag_not_1 want got : ktag want got <> 1%N.
+Proof.
+  unfold ktag.
+  repeat match goal with |- context[if ?b then _ else _] => destruct b end; discriminate.
+Qed.
+
+Lemma check_clean_kaccepts_from c : forall n s ks mok,
+  (forall m t, In (m, t) (check_from n s ks mok true c) -> t = 1%N) -> kaccepts_from ks c = true.
+Proof.
+  induction c as [|[e r] c IH]; intros n s ks mok H; cbn; [reflexivity|].
+  cbn in H. destruct (mrun s e) as [s' rm]. destruct (kstep ks e) as [ks' rk].
+  destruct (obs_eqb (canon r) rk) eqn:E; cbn in *.
+  - eapply IH. intros m t Hin. apply (H m t). rewrite in_app_iff. right. exact Hin.
+  - exfalso. specialize (H n (ktag rk (canon r))).
+    apply (ktag_not_1 rk (canon r)). apply H. rewrite in_app_iff. right. left. reflexivity.
+Qed.
+
+Theorem check_clean_kaccepts c :
+  (forall m t, In (m, t) (check_case c) -> t = 1%N) -> kaccepts c = true.
+Proof. apply check_clean_kaccepts_from. Qed.
+
+(** equality tests *)
+Lemma list_eqb_eq {A} (e : A -> A -> bool) :
+  (forall x y, e x y = true -> x = y) -> forall a b, list_eqb e a b = true -> a = b.
+Proof.
+  intros He. induction a as [|x a IH]; destruct b as [|y b]; cbn; try discriminate; auto.
+  intros H. apply andb_true_iff in H. destruct H as [H1 H2]. f_equal; auto.
+Qed.
+
+Lemma nats_eqb_eq a b : nats_eqb a b = true -> a = b.
+Proof. apply list_eqb_eq. intros x y. apply Nat.eqb_eq. Qed.
+
+Lemma robs_eqb_eq a b : robs_eqb a b = true -> a = b.
+Proof.
+  destruct a, b; cbn; try discriminate; auto.
+  - intros H; apply Nat.eqb_eq in H; congruence.
+  - intros H; apply N.eqb_eq in H; congruence.
+Qed.
+
+Lemma rets_eqb_eq a b : rets_eqb a b = true -> a = b.
+Proof.
+  apply list_eqb_eq. intros [i r] [j r']; cbn. intros H. apply andb_true_iff in H. destruct H as [H1 H2].
+  apply Nat.eqb_eq in H1. apply robs_eqb_eq in H2. congruence.
+Qed.
+
+Lemma obs_eqb_fields a b :
+  obs_eqb a b = true ->
+  o_ign a = o_ign b /\ o_rets a = o_rets b /\ o_closed a = o_closed b.
+Proof.
+  unfold obs_eqb. intros H. repeat (apply andb_true_iff in H; destruct H as [H ?]).
+  repeat split.
+  - now apply Bool.eqb_prop.
+  - now apply rets_eqb_eq.
+  - now apply nats_eqb_eq.
+Qed.
+
+(** membership through the canonical forms *)
+Lemma In_ins_nat x y l : In x (ins_nat y l) <-> x = y \/ In x l.
+Proof.
+  induction l as [|z l IH]; cbn; [intuition|].
+  destruct (Nat.leb y z); cbn; [intuition|]. rewrite IH. intuition.
+Qed.
+
+Lemma In_sort_nat x l : In x (sort_nat l) <-> In x l.
+Proof.
+  induction l as [|y l IH]; cbn; [tauto|]. rewrite In_ins_nat, IH. intuition.
+Qed.
+
+Lemma In_dedup_nat x l : In x (dedup_nat l) -> In x l.
+Proof.
+  induction l as [|y l IH]; [auto|]. destruct l as [|z l']; [auto|].
+  cbn [dedup_nat]. destruct (Nat.eqb y z).
+  - intros H. right. exact (IH H).
+  - intros [->|H]; [left; reflexivity|right; exact (IH H)].
+Qed.
+
+Lemma In_ins_key {A} (x y : nat * A) l : In x (ins_key y l) <-> x = y \/ In x l.
+Proof.
+  induction l as [|z l IH]; cbn; [intuition|].
+  destruct (Nat.leb (fst y) (fst z)); cbn; [intuition|]. rewrite IH. intuition.
+Qed.
+
+Lemma In_sort_key {A} (x : nat * A) l : In x (sort_key l) <-> In x l.
+Proof.
+  induction l as [|y l IH]; cbn; [tauto|]. rewrite In_ins_key, IH. intuition.
+Qed.
+
+(** ** invariant of the specification machine *)
+
+Record kinv (ks : kstate) : Prop := {
+  kj_closed : forall h, In h (k_closed ks) -> forall i t, k_thr ks i = Some t ->
+              khandle ks (k_src t) = Some h -> k_rel t = true;
+  kj_ret : forall i t h, k_thr ks i = Some t -> k_ret t = Some (OConn h) -> khandle ks (k_src t) = Some h;
+  kj_dom : forall i t, k_thr ks i = Some t -> In i (k_ids ks);
+  kj_live : forall a h, k_as ks a = ALive h -> ~ In h (k_closed ks) /\ k_d ks h = Some (a, DOk);
+  kj_closed_ok : forall h, In h (k_closed ks) -> exists a, k_d ks h = Some (a, DOk);
+  kj_dialing : forall a d, k_as ks a = ADialing d -> k_d ks d = Some (a, DPend);
+  kj_failing : forall a d, k_as ks a = AFailing d -> exists cls, k_d ks d = Some (a, DFail cls false);
+  kj_d_dom : forall d x, k_d ks d = Some x -> k_thr ks d <> None;
+  kj_sconn : forall i t h, k_thr ks i = Some t -> k_src t = SConn h -> exists a, k_d ks h = Some (a, DOk)
+}.
+
+Lemma kinv_init : kinv kinit.
+Proof. constructor; cbn; intros; try discriminate; try contradiction. Qed.
+
+Lemma kexpect_handle ks src h : kexpect ks src = Some (OConn h) -> khandle ks src = Some h.
+Proof.
+  destruct src as [|d|h']; cbn; try discriminate.
+  - destruct (k_d ks d) as [[a [| |cls [|]]]|]; try discriminate. congruence.
+  - congruence.
+Qed.
+
+(** [kwake] only fills in returns *)
+Definition wake_step (acc : kstate * list (nat * robs)) (i : nat) : kstate * list (nat * robs) :=
+  let '(ks, out) := acc in
+  match k_thr ks i with
+  | Some t =>
+      match k_ret t, k_passed t, kexpect ks (k_src t) with
+      | None, true, Some r =>
+          (kset_thr ks (upd (k_thr ks) i (Some {| k_src := k_src t; k_passed := true; k_ret := Some r; k_rel := k_rel t |})),
+           (i, r) :: out)
+      | _, _, _ => acc
+      end
+  | None => acc
+  end.
+
+Lemma kwake_fold ks : kwake ks = fold_left wake_step (k_ids ks) (ks, []).
+Proof. reflexivity. Qed.
+
+Definition wake_rel (ks ks' : kstate) (out : list (nat * robs)) : Prop :=
+  k_as ks' = k_as ks /\ k_d ks' = k_d ks /\ k_ids ks' = k_ids ks /\ k_cancel ks' = k_cancel ks /\
+  k_closed ks' = k_closed ks /\
+  (forall i, match k_thr ks i with
+             | None => k_thr ks' i = None
+             | Some t => exists t', k_thr ks' i = Some t' /\ k_src t' = k_src t /\ k_rel t' = k_rel t /\
+                                    (k_ret t' = k_ret t \/ (k_ret t = None /\ k_ret t' = kexpect ks (k_src t)))
+             end) /\
+  (forall i r, In (i, r) out -> exists t', k_thr ks' i = Some t' /\ k_ret t' = Some r).
+
+Lemma kexpect_d ks ks' src : k_d ks' = k_d ks -> kexpect ks' src = kexpect ks src.
+Proof. intros H. destruct src; cbn; try reflexivity. now rewrite H. Qed.
+
+Lemma khandle_d ks ks' src : k_d ks' = k_d ks -> khandle ks' src = khandle ks src.
+Proof. intros H. destruct src; cbn; try reflexivity. now rewrite H. Qed.
+
+Lemma wake_rel_step ks ks1 out1 i :
+  wake_rel ks ks1 out1 -> wake_rel ks (fst (wake_step (ks1, out1) i)) (snd (wake_step (ks1, out1) i)).
+Proof.
+  intros (Ha & Hd & Hi & Hc & Hcl & Ht & Ho). unfold wake_step, wake_rel.
+  destruct (k_thr ks1 i) as [t1|] eqn:E1; [|cbn; repeat split; auto].
+  destruct (k_ret t1) eqn:Er; [cbn; repeat split; auto|].
+  destruct (k_passed t1); [|cbn; repeat split; auto].
+  destruct (kexpect ks1 (k_src t1)) as [r|] eqn:Ee; [|cbn; repeat split; auto].
+  cbn. repeat split; auto.
+  - intros j. specialize (Ht j). destruct (k_thr ks j) as [t|] eqn:Ej.
+    + destruct Ht as (t' & Ht' & Hs & Hr & Hret). upd_cases j i; [subst j|eauto 8].
+      assert (t' = t1) by congruence; subst t'.
+      eexists. split; [reflexivity|]. cbn. repeat split; auto.
+      right. rewrite Er in Hret. destruct Hret as [Hret|[Hret _]]; [split; [congruence|]|split; [exact Hret|]].
+      * rewrite <- Hs, <- (kexpect_d ks ks1) by exact Hd. now rewrite Ee.
+      * rewrite <- Hs, <- (kexpect_d ks ks1) by exact Hd. now rewrite Ee.
+    + upd_cases j i; [subst j; congruence|exact Ht].
+  - intros j r0 [E|Hin].
+    + inversion E; subst j r0. rewrite upd_same. eexists. split; [reflexivity|reflexivity].
+    + destruct (Ho j r0 Hin) as (t' & Ht' & Hr'). upd_cases j i; [subst j|eauto].
+      assert (t' = t1) by congruence; subst t'. congruence.
+Qed.
+
+Lemma wake_rel_fold ks l : forall ks1 out1,
+  wake_rel ks ks1 out1 ->
+  wake_rel ks (fst (fold_left wake_step l (ks1, out1))) (snd (fold_left wake_step l (ks1, out1))).
+Proof.
+  induction l as [|i l IH]; intros ks1 out1 H; cbn [fold_left]; [exact H|].
+  pose proof (wake_rel_step ks ks1 out1 i H) as H1.
+  destruct (wake_step (ks1, out1) i) as [ks2 out2]. apply IH. exact H1.
+Qed.
+
+Lemma kwake_rel ks ks' out : kwake ks = (ks', out) -> wake_rel ks ks' out.
+Proof.
+  intros H. rewrite kwake_fold in H.
+  assert (H0 : wake_rel ks ks []).
+  { repeat split; auto. intros i. destruct (k_thr ks i); eauto 8. intros i r []. }
+  pose proof (wake_rel_fold ks (k_ids ks) ks [] H0) as H1. rewrite H in H1. exact H1.
+Qed.
+
+Lemma kinv_wake ks ks' out : kinv ks -> wake_rel ks ks' out -> kinv ks'.
+Proof.
+  intros K (Ha & Hd & Hi & Hc & Hcl & Ht & Ho).
+  constructor.
+  - intros h Hh i t' Hi' Hk. rewrite Hcl in Hh. specialize (Ht i).
+    destruct (k_thr ks i) as [t|] eqn:E; [|congruence].
+    destruct Ht as (t2 & Ht2 & Hs & Hr & _). assert (t2 = t') by congruence; subst t2.
+    rewrite Hr. apply (kj_closed ks K h Hh i t E). rewrite <- Hs, <- (khandle_d ks ks') by exact Hd. exact Hk.
+  - intros i t' h Hi' Hret. specialize (Ht i).
+    destruct (k_thr ks i) as [t|] eqn:E; [|congruence].
+    destruct Ht as (t2 & Ht2 & Hs & Hr & Hx). assert (t2 = t') by congruence; subst t2.
+    rewrite (khandle_d ks ks') by exact Hd. rewrite Hs.
+    destruct Hx as [Hx|[_ Hx]].
+    + apply (kj_ret ks K i t h E). congruence.
+    + apply kexpect_handle. congruence.
+  - intros i t' Hi'. rewrite Hi. specialize (Ht i).
+    destruct (k_thr ks i) as [t|] eqn:E; [|congruence]. eapply kj_dom; eauto.
+  - intros a h. rewrite Ha, Hcl, Hd. apply K.
+  - intros h. rewrite Hcl, Hd. apply K.
+  - intros a d. rewrite Ha, Hd. apply K.
+  - intros a d. rewrite Ha, Hd. apply K.
+  - intros d x. rewrite Hd. intros Hx. specialize (Ht d).
+    pose proof (kj_d_dom ks K d x Hx) as Hn.
+    destruct (k_thr ks d); [|congruence]. destruct Ht as (t' & -> & _). discriminate.
+  - intros i t' h Hi' Hsrc. rewrite Hd. specialize (Ht i).
+    destruct (k_thr ks i) as [t|] eqn:E; [|congruence].
+    destruct Ht as (t2 & Ht2 & Hs & _). assert (t2 = t') by congruence; subst t2.
+    apply (kj_sconn ks K i t h E). congruence.
+Qed.
+
+Lemma kinv_new_thread ks i src ret :
+  kinv ks -> k_thr ks i = None ->
+  (forall h, khandle ks src = Some h -> ~ In h (k_closed ks)) ->
+  (forall h, ret <> Some (OConn h)) ->
+  (forall h, src = SConn h -> exists a, k_d ks h = Some (a, DOk)) ->
+  kinv (kset_thr (kset_ids ks (i :: k_ids ks))
+          (upd (k_thr ks) i (Some {| k_src := src; k_passed := false; k_ret := ret; k_rel := false |}))).
+Proof.
+  intros K Hn Hh Hr Hs. constructor; cbn.
+  - intros h Hin j t. upd_cases j i.
+    + intros E; inversion E; subst t; cbn. intros Hk. exfalso. exact (Hh h Hk Hin).
+    + apply (kj_closed ks K h Hin j t).
+  - intros j t h. upd_cases j i.
+    + intros E; inversion E; subst t; cbn. intros Hx. exfalso. exact (Hr h Hx).
+    + apply (kj_ret ks K j t h).
+  - intros j t. upd_cases j i; [left; congruence|]. intros H. right. eapply kj_dom; eauto.
+  - apply K.
+  - apply K.
+  - apply K.
+  - apply K.
+  - intros d x Hx. upd_cases d i; [discriminate|]. eapply kj_d_dom; eauto.
+  - intros j t h. upd_cases j i.
+    + intros E; inversion E; subst t; cbn. apply Hs.
+    + apply (kj_sconn ks K j t h).
+Qed.
+
+Lemma khandle_upd_d ks d a o src :
+  (forall a', k_d ks d <> Some (a', DOk)) -> o <> DOk ->
+  khandle (kset_d ks (upd (k_d ks) d (Some (a, o)))) src = khandle ks src.
+Proof.
+  intros H1 H2. destruct src as [|d'|h]; cbn; try reflexivity.
+  upd_cases d' d; [subst d'|reflexivity].
+  destruct o; try congruence; destruct (k_d ks d) as [[a' [| |]]|]; try reflexivity; exfalso; eapply H1; eauto.
+Qed.
+
+(** the record of a dial moves between undecided / failed, its address
+    becomes dialing / failing / idle accordingly *)
+Lemma kinv_set_dial ks a d o A :
+  kinv ks ->
+  (k_d ks d = None \/ exists o0, k_d ks d = Some (a, o0) /\ o0 <> DOk) -> o <> DOk ->
+  k_thr ks d <> None ->
+  match A with
+  | ADialing d' => d' = d /\ o = DPend
+  | AFailing d' => d' = d /\ exists cls, o = DFail cls false
+  | AIdle => True
+  | ALive _ => False
+  end ->
+  kinv (kset_d (kset_as ks (upd (k_as ks) a A)) (upd (k_d ks) d (Some (a, o)))).
+Proof.
+  intros K Hd Ho Ht HA.
+  assert (Hnok : forall a', k_d ks d <> Some (a', DOk)).
+  { intros a' E. destruct Hd as [Hd|(o0 & Hd & Hn)]; congruence. }
+  assert (Hkh : forall src, khandle (kset_d (kset_as ks (upd (k_as ks) a A)) (upd (k_d ks) d (Some (a, o)))) src = khandle ks src).
+  { intros src. apply (khandle_upd_d (kset_as ks (upd (k_as ks) a A)) d a o src); auto. }
+  assert (Hother : forall a' d', a' <> a -> (k_as ks a' = ADialing d' \/ k_as ks a' = AFailing d') -> d' <> d).
+  { intros a' d' Hne Has ->. destruct Has as [Has|Has].
+    - pose proof (kj_dialing ks K a' d Has) as E. destruct Hd as [Hd|(o0 & Hd & _)]; congruence.
+    - destruct (kj_failing ks K a' d Has) as (cls & E). destruct Hd as [Hd|(o0 & Hd & _)]; congruence. }
+  constructor.
+  - intros h Hin j t Hj Hk. rewrite Hkh in Hk. exact (kj_closed ks K h Hin j t Hj Hk).
+  - intros j t h Hj Hr. rewrite Hkh. exact (kj_ret ks K j t h Hj Hr).
+  - apply K.
+  - cbn. intros a' h. upd_cases a' a.
+    + intros E. subst A. contradiction.
+    + intros E. destruct (kj_live ks K a' h E) as [H1 H2]. split; [exact H1|].
+      upd_cases h d; [subst h; exfalso; eapply Hnok; eauto|exact H2].
+  - cbn. intros h Hin. destruct (kj_closed_ok ks K h Hin) as (a0 & E).
+    upd_cases h d; [subst h; exfalso; eapply Hnok; eauto|eauto].
+  - cbn. intros a' d'. upd_cases a' a.
+    + intros E. subst A a'. destruct HA as [-> ->]. now rewrite Nat.eqb_refl.
+    + intros E. pose proof (Hother a' d' n (or_introl E)) as Hne.
+      upd_cases d' d; [contradiction|]. exact (kj_dialing ks K a' d' E).
+  - cbn. intros a' d'. upd_cases a' a.
+    + intros E. subst A a'. destruct HA as [-> (cls & ->)]. rewrite Nat.eqb_refl. eauto.
+    + intros E. pose proof (Hother a' d' n (or_intror E)) as Hne.
+      upd_cases d' d; [contradiction|]. exact (kj_failing ks K a' d' E).
+  - cbn. intros d' x. upd_cases d' d; [subst; intros _; exact Ht|]. apply (kj_d_dom ks K d' x).
+  - cbn. intros j t h Hj Hs. destruct (kj_sconn ks K j t h Hj Hs) as (a0 & E).
+    upd_cases h d; [subst h; exfalso; eapply Hnok; eauto|eauto].
+Qed.
+
+(** a dial succeeds *)
+Lemma kinv_dial_ok ks a d :
+  kinv ks -> k_d ks d = Some (a, DPend) ->
+  kinv (kset_d (kset_as ks (upd (k_as ks) a (ALive d))) (upd (k_d ks) d (Some (a, DOk)))).
+Proof.
+  intros K Hd.
+  assert (Hncl : ~ In d (k_closed ks)).
+  { intros Hin. destruct (kj_closed_ok ks K d Hin) as (a0 & E). congruence. }
+  assert (Hkh : forall src, (forall h, khandle ks src = Some h -> khandle (kset_d (kset_as ks (upd (k_as ks) a (ALive d))) (upd (k_d ks) d (Some (a, DOk)))) src = Some h) /\
+                      (forall h, khandle (kset_d (kset_as ks (upd (k_as ks) a (ALive d))) (upd (k_d ks) d (Some (a, DOk)))) src = Some h ->
+                                 khandle ks src = Some h \/ (src = SDial d /\ h = d))).
+  { intros src. destruct src as [|d'|h']; cbn; split; intros h; try congruence; auto.
+    - upd_cases d' d; [subst d'; rewrite Hd; discriminate|auto].
+    - upd_cases d' d; [subst d'; intros E; inversion E; auto|auto]. }
+  constructor.
+  - intros h Hin j t Hj Hk. cbn in Hin. destruct (proj2 (Hkh (k_src t)) h Hk) as [Hk'|[_ ->]].
+    + exact (kj_closed ks K h Hin j t Hj Hk').
+    + contradiction.
+  - intros j t h Hj Hr. apply (proj1 (Hkh (k_src t)) h). exact (kj_ret ks K j t h Hj Hr).
+  - apply K.
+  - cbn. intros a' h. upd_cases a' a.
+    + intros E; inversion E; subst h a'. split; [exact Hncl|]. now rewrite Nat.eqb_refl.
+    + intros E. destruct (kj_live ks K a' h E) as [H1 H2]. split; [exact H1|].
+      upd_cases h d; [subst h; congruence|exact H2].
+  - cbn. intros h Hin. destruct (kj_closed_ok ks K h Hin) as (a0 & E).
+    upd_cases h d; [subst h; congruence|eauto].
+  - cbn. intros a' d'. upd_cases a' a; [discriminate|]. intros E.
+    pose proof (kj_dialing ks K a' d' E) as E'. upd_cases d' d; [subst d'; congruence|exact E'].
+  - cbn. intros a' d'. upd_cases a' a; [discriminate|]. intros E.
+    destruct (kj_failing ks K a' d' E) as (cls & E'). upd_cases d' d; [subst d'; congruence|eauto].
+  - cbn. intros d' x. upd_cases d' d; [subst; intros _; eapply kj_d_dom; eauto|]. apply (kj_d_dom ks K d' x).
+  - cbn. intros j t h Hj Hs. destruct (kj_sconn ks K j t h Hj Hs) as (a0 & E).
+    upd_cases h d; [subst h; congruence|eauto].
+Qed.
+
+(** a thread's flags change (passed / released), everything else stays *)
+Lemma kinv_set_flags ks i t p (r : bool) :
+  kinv ks -> k_thr ks i = Some t -> (k_rel t = true -> r = true) ->
+  kinv (kset_thr ks (upd (k_thr ks) i (Some {| k_src := k_src t; k_passed := p; k_ret := k_ret t; k_rel := r |}))).
+Proof.
+  intros K Ht Hr. constructor; cbn.
+  - intros h Hin j tj. upd_cases j i.
+    + subst j. intros E; inversion E; subst tj; cbn. intros Hk. apply Hr. exact (kj_closed ks K h Hin i t Ht Hk).
+    + apply (kj_closed ks K h Hin j tj).
+  - intros j tj h. upd_cases j i.
+    + subst j. intros E; inversion E; subst tj; cbn. apply (kj_ret ks K i t h Ht).
+    + apply (kj_ret ks K j tj h).
+  - intros j tj. upd_cases j i; [subst; intros _; eapply kj_dom; eauto|]. apply (kj_dom ks K j tj).
+  - apply K.
+  - apply K.
+  - apply K.
+  - apply K.
+  - intros d x Hx. upd_cases d i; [discriminate|]. eapply kj_d_dom; eauto.
+  - intros j tj h. upd_cases j i.
+    + subst j. intros E; inversion E; subst tj; cbn. apply (kj_sconn ks K i t h Ht).
+    + apply (kj_sconn ks K j tj h).
+Qed.
+
+Lemma kinv_set_cancel ks v : kinv ks -> kinv (kset_cancel ks v).
+Proof. intros K. destruct K. constructor; assumption. Qed.
+
+Lemma khandle_dok ks src h :
+  kinv ks -> (forall i t, k_thr ks i = Some t -> k_src t = src -> True) ->
+  khandle ks src = Some h -> (forall h', src = SConn h' -> exists a, k_d ks h' = Some (a, DOk)) ->
+  exists a, k_d ks h = Some (a, DOk).
+Proof.
+  intros K _ Hk Hs. destruct src as [|d|h']; cbn in Hk; try discriminate.
+  - destruct (k_d ks d) as [[a [| |cls f]]|] eqn:E; try discriminate. inversion Hk; subst. eauto.
+  - inversion Hk; subst. apply Hs. reflexivity.
+Qed.
+
+Lemma kinv_close ks h a :
+  kinv ks -> (forall j, In j (k_ids ks) -> kholds ks h j = false) -> k_d ks h = Some (a, DOk) ->
+  kinv (kset_closed (kset_as ks (upd (k_as ks) a AIdle)) (h :: k_closed ks)).
+Proof.
+  intros K Hno Hd. constructor; cbn.
+  - intros h' [<-|Hin] j t Hj Hk.
+    + pose proof (Hno j (kj_dom ks K j t Hj)) as Hf. unfold kholds in Hf. rewrite Hj in Hf.
+      change (khandle (kset_closed (kset_as ks (upd (k_as ks) a AIdle)) (h :: k_closed ks)) (k_src t))
+        with (khandle ks (k_src t)) in Hk. rewrite Hk, Nat.eqb_refl in Hf.
+      destruct (k_rel t); [reflexivity|discriminate].
+    + exact (kj_closed ks K h' Hin j t Hj Hk).
+  - apply K.
+  - apply K.
+  - intros a' h'. upd_cases a' a; [discriminate|]. intros E.
+    destruct (kj_live ks K a' h' E) as [H1 H2]. split; [|exact H2].
+    intros [<-|Hin]; [congruence|contradiction].
+  - intros h' [<-|Hin]; [eauto|]. exact (kj_closed_ok ks K h' Hin).
+  - intros a' d. upd_cases a' a; [discriminate|]. apply (kj_dialing ks K a' d).
+  - intros a' d. upd_cases a' a; [discriminate|]. apply (kj_failing ks K a' d).
+  - apply K.
+  - apply K.
+Qed.
+
+Lemma kd_none_of_fresh ks i : kinv ks -> k_thr ks i = None -> k_d ks i = None.
+Proof.
+  intros K Hn. destruct (k_d ks i) as [x|] eqn:E; [|reflexivity].
+  exfalso. exact (kj_d_dom ks K i x E Hn).
+Qed.
+
+Theorem kinv_kstep ks e : kinv ks -> kinv (fst (kstep ks e)).
+Proof.
+  intros K. destruct e as [i a known|i|d ok|d|i|i]; cbn [kstep].
+  - (* EReq *)
+    destruct (k_thr ks i) eqn:Ei; [exact K|].
+    pose proof (kd_none_of_fresh ks i K Ei) as Hdi.
+    destruct (k_cancel ks i).
+    + cbn. apply kinv_new_thread; auto; cbn; try discriminate.
+    + destruct (k_as ks a) as [|d|d|h] eqn:Ea.
+      * assert (K1 : kinv (kset_thr (kset_ids ks (i :: k_ids ks))
+                     (upd (k_thr ks) i (Some {| k_src := SDial i; k_passed := false; k_ret := None; k_rel := false |})))).
+        { apply kinv_new_thread; auto; cbn; try discriminate. rewrite Hdi. discriminate. }
+        destruct known; cbn.
+        -- apply (kinv_set_dial _ a i DPend (ADialing i) K1); cbn; auto; try discriminate.
+           rewrite upd_same. discriminate.
+        -- apply (kinv_set_dial _ a i (DFail 3%N false) (AFailing i) K1); cbn; auto; try discriminate.
+           ++ rewrite upd_same. discriminate.
+           ++ split; eauto.
+      * cbn. apply kinv_new_thread; auto; cbn; try discriminate.
+        rewrite (kj_dialing ks K a d Ea). discriminate.
+      * cbn. apply kinv_new_thread; auto; cbn; try discriminate.
+        destruct (kj_failing ks K a d Ea) as (cls & ->). discriminate.
+      * cbn. destruct (kj_live ks K a h Ea) as [H1 H2].
+        apply kinv_new_thread; auto; cbn; try discriminate.
+        -- intros h' E; inversion E; subst; exact H1.
+        -- intros h' E; inversion E; subst; eauto.
+  - (* EPass *)
+    destruct (k_thr ks i) as [t|] eqn:Ei; [|exact K].
+    destruct (k_ret t) eqn:Er; [exact K|]. destruct (k_passed t); [exact K|].
+    match goal with |- context[kwake ?x] => destruct (kwake x) as [ks2 rets] eqn:Ew; set (ks1 := x) in * end.
+    cbn. apply (kinv_wake ks1 ks2 rets); [|now apply kwake_rel].
+    unfold ks1. rewrite <- Er. apply kinv_set_flags; auto.
+  - (* EDial *)
+    destruct (k_d ks d) as [[a [| |cls f]]|] eqn:Ed; try exact K.
+    destruct ok.
+    + match goal with |- context[kwake ?x] => destruct (kwake x) as [ks2 rets] eqn:Ew; set (ks1 := x) in * end.
+      cbn. apply (kinv_wake ks1 ks2 rets); [|now apply kwake_rel].
+      unfold ks1. now apply kinv_dial_ok.
+    + cbn. apply (kinv_set_dial ks a d (DFail 2%N false) (AFailing d) K); cbn; try discriminate.
+      * right. exists DPend. split; [exact Ed|discriminate].
+      * eapply kj_d_dom; eauto.
+      * split; eauto.
+  - (* EFailGo *)
+    destruct (k_d ks d) as [[a [| |cls [|]]]|] eqn:Ed; try exact K.
+    match goal with |- context[kwake ?x] => destruct (kwake x) as [ks2 rets] eqn:Ew; set (ks1 := x) in * end.
+    cbn. apply (kinv_wake ks1 ks2 rets); [|now apply kwake_rel].
+    unfold ks1. apply (kinv_set_dial ks a d (DFail cls true) AIdle K); cbn; try discriminate; auto.
+    + right. eexists. split; [exact Ed|discriminate].
+    + eapply kj_d_dom; eauto.
+  - (* ERelease *)
+    destruct (k_thr ks i) as [t|] eqn:Ei; [|exact K].
+    destruct (k_ret t) as [[h| |cls]|] eqn:Er; try exact K.
+    destruct (k_rel t) eqn:Erl; [exact K|].
+    assert (K1 : kinv (kset_thr ks (upd (k_thr ks) i
+                  (Some {| k_src := k_src t; k_passed := k_passed t; k_ret := k_ret t; k_rel := true |})))).
+    { apply kinv_set_flags; auto. }
+    rewrite Er in K1.
+    match goal with |- context[existsb ?f ?l] => destruct (existsb f l) eqn:Eex end; [exact K1|].
+    cbn [fst].
+    pose proof (kj_ret ks K i t h Ei Er) as Hk.
+    assert (Hdok : exists a0, k_d ks h = Some (a0, DOk)).
+    { destruct (k_src t) as [|d|h'] eqn:Es; cbn in Hk; try discriminate.
+      - destruct (k_d ks d) as [[a0 [| |c0 f0]]|] eqn:E; try discriminate. inversion Hk; subst. eauto.
+      - inversion Hk; subst. eapply kj_sconn; eauto. }
+    destruct Hdok as (a0 & Ha0). rewrite Ha0.
+    apply (kinv_close _ h a0 K1); [|exact Ha0].
+    intros j Hj. destruct (kholds _ h j) eqn:Eh; [|reflexivity].
+    assert (Hex : existsb (kholds (kset_thr ks (upd (k_thr ks) i
+                  (Some {| k_src := k_src t; k_passed := k_passed t; k_ret := Some (OConn h); k_rel := true |}))) h)
+                  (k_ids ks) = true) by (apply existsb_exists; exists j; split; [exact Hj|exact Eh]).
+    cbn in Eex. rewrite Hex in Eex. discriminate.
+  - (* ECancel *)
+    destruct (k_d ks i) as [[a [| |cls f]]|] eqn:Ed; cbn; try (apply kinv_set_cancel; exact K).
+    apply (kinv_set_dial (kset_cancel ks (upd (k_cancel ks) i true)) a i (DFail 1%N false) (AFailing i));
+      cbn; try discriminate.
+    + apply kinv_set_cancel; exact K.
+    + right. exists DPend. split; [exact Ed|discriminate].
+    + eapply kj_d_dom; eauto.
+    + split; eauto.
+Qed.
+
+(** ** coupling the specification state with the observed trace *)
+
+Definition returned_in (c : trace) (i : nat) (r : robs) : Prop :=
+  exists e o, In (e, o) c /\ In (i, r) (o_rets (canon o)).
+
+Definition released_in (c : trace) (i : nat) : Prop :=
+  exists o, In (ERelease i, o) c /\ o_ign (canon o) = false.
+
+Definition thread_facts (ks ks' : kstate) (e : event) (rk : obs) (i : nat) : Prop :=
+  (forall t r, k_thr ks i = Some t -> k_ret t = Some r -> exists t', k_thr ks' i = Some t' /\ k_ret t' = Some r) /\
+  (forall t', k_thr ks' i = Some t' -> k_rel t' = true ->
+     (exists t, k_thr ks i = Some t /\ k_rel t = true) \/ (e = ERelease i /\ o_ign rk = false)) /\
+  (forall r, In (i, r) (o_rets rk) -> exists t', k_thr ks' i = Some t' /\ k_ret t' = Some r).
+
+Lemma wake_threads ks1 ks2 out i :
+  wake_rel ks1 ks2 out ->
+  (forall t r, k_thr ks1 i = Some t -> k_ret t = Some r -> exists t', k_thr ks2 i = Some t' /\ k_ret t' = Some r) /\
+  (forall t', k_thr ks2 i = Some t' -> k_rel t' = true -> exists t, k_thr ks1 i = Some t /\ k_rel t = true) /\
+  (forall r, In (i, r) out -> exists t', k_thr ks2 i = Some t' /\ k_ret t' = Some r).
+Proof.
+  intros (_ & _ & _ & _ & _ & Ht & Ho). specialize (Ht i). repeat split.
+  - intros t r E Hr. rewrite E in Ht. destruct Ht as (t' & E' & _ & _ & Hx).
+    exists t'. split; [exact E'|]. destruct Hx as [Hx|[Hx _]]; congruence.
+  - intros t' E' Hr. destruct (k_thr ks1 i) as [t|]; [|congruence].
+    destruct Ht as (t2 & E2 & _ & Hrel & _). assert (t2 = t') by congruence; subst t2.
+    exists t. split; [reflexivity|congruence].
+  - intros r Hin. exact (Ho i r Hin).
+Qed.
+
+Lemma kobs_rets ign ks rets j d f x : In x (o_rets (kobs ign ks rets j d f)) <-> In x rets.
+Proof. unfold kobs, canon. cbn. apply In_sort_key. Qed.
+
+Lemma kobs_ign ign ks rets j d f : o_ign (kobs ign ks rets j d f) = ign.
+Proof. reflexivity. Qed.
+
+Lemma thread_facts_same ks e rk i :
+  (forall r, ~ In (i, r) (o_rets rk)) -> thread_facts ks ks e rk i.
+Proof.
+  intros Hn. repeat split.
+  - intros t r E Hr. eauto.
+  - intros t' E Hr. left. eauto.
+  - intros r Hin. exfalso. exact (Hn r Hin).
+Qed.
+
+(** threads unchanged by the first part of the step, then [kwake] *)
+Lemma thread_facts_wake ks ks1 ks2 rets e i jn dl fl :
+  (forall j, k_thr ks1 j = k_thr ks j) -> wake_rel ks1 ks2 rets ->
+  thread_facts ks ks2 e (kobs false ks2 rets jn dl fl) i.
+Proof.
+  intros Hsame Hw. destruct (wake_threads ks1 ks2 rets i Hw) as (H1 & H2 & H3).
+  rewrite Hsame in H1. repeat split.
+  - exact H1.
+  - intros t' E Hr. left. destruct (H2 t' E Hr) as (t & Et & Hrt). rewrite Hsame in Et. eauto.
+  - intros r Hin. apply kobs_rets in Hin. exact (H3 r Hin).
+Qed.
+
+Ltac norets :=
+  let r := fresh "r" in let H := fresh "H" in
+  intros r H; try (apply kobs_rets in H); cbn in H; solve [exact H | contradiction].
+
+Lemma kstep_thread_facts ks e i :
+  thread_facts ks (fst (kstep ks e)) e (snd (kstep ks e)) i.
+Proof.
+  destruct e as [i0 a known|i0|d ok|d|i0|i0]; cbn [kstep].
+  - (* EReq *)
+    destruct (k_thr ks i0) eqn:Ei; [apply thread_facts_same; norets|].
+    assert (G : forall src ret ks' rk,
+              k_thr ks' = upd (k_thr ks) i0 (Some {| k_src := src; k_passed := false; k_ret := ret; k_rel := false |}) ->
+              (forall r, In (i, r) (o_rets rk) -> i = i0 /\ ret = Some r) ->
+              thread_facts ks ks' (EReq i0 a known) rk i).
+    { intros src ret ks' rk Hk Hr. repeat split.
+      - intros t r E Hret. rewrite Hk. upd_cases i i0; [subst; congruence|eauto].
+      - intros t' E Hrel. rewrite Hk in E. revert E. upd_cases i i0.
+        + intros E; inversion E; subst t'. discriminate.
+        + intros E. left. eauto.
+      - intros r Hin. destruct (Hr r Hin) as [-> ->]. rewrite Hk, upd_same. eexists. split; reflexivity. }
+    destruct (k_cancel ks i0).
+    + cbn [fst snd]. eapply G; [reflexivity|]. intros r H. apply kobs_rets in H.
+      destruct H as [H|[]]. inversion H; auto.
+    + destruct (k_as ks a); [destruct known|..]; cbn [fst snd];
+        (eapply G; [reflexivity|norets]).
+  - (* EPass *)
+    destruct (k_thr ks i0) as [t|] eqn:Ei; [|apply thread_facts_same; norets].
+    destruct (k_ret t) eqn:Er; [apply thread_facts_same; norets|].
+    destruct (k_passed t); [apply thread_facts_same; norets|].
+    match goal with |- context[kwake ?x] => destruct (kwake x) as [ks2 rets] eqn:Ew; set (ks1 := x) in * end.
+    cbn [fst snd]. pose proof (kwake_rel ks1 ks2 rets Ew) as Hw.
+    destruct (wake_threads ks1 ks2 rets i Hw) as (H1 & H2 & H3). repeat split.
+    + intros t0 r E Hret. unfold ks1 in H1. cbn in H1. revert H1. upd_cases i i0.
+      * subst i0. intros H1. assert (t0 = t) by congruence; subst t0. congruence.
+      * intros H1. eapply H1; eauto.
+    + intros t' E Hrel. left. destruct (H2 t' E Hrel) as (t1 & Et1 & Hr1).
+      unfold ks1 in Et1. cbn in Et1. revert Et1. upd_cases i i0.
+      * subst i0. intros E1; inversion E1; subst t1. cbn in Hr1. eauto.
+      * eauto.
+    + intros r Hin. apply kobs_rets in Hin. exact (H3 r Hin).
+  - (* EDial *)
+    destruct (k_d ks d) as [[a [| |cls f]]|] eqn:Ed;
+      try (apply thread_facts_same; norets).
+    destruct ok.
+    + match goal with |- context[kwake ?x] => destruct (kwake x) as [ks2 rets] eqn:Ew; set (ks1 := x) in * end.
+      cbn [fst snd]. apply (thread_facts_wake ks ks1 ks2); [reflexivity|now apply kwake_rel].
+    + cbn [fst snd]. repeat split; cbn; eauto. norets.
+  - (* EFailGo *)
+    destruct (k_d ks d) as [[a [| |cls [|]]]|] eqn:Ed;
+      try (apply thread_facts_same; norets).
+    match goal with |- context[kwake ?x] => destruct (kwake x) as [ks2 rets] eqn:Ew; set (ks1 := x) in * end.
+    cbn [fst snd]. apply (thread_facts_wake ks ks1 ks2); [reflexivity|now apply kwake_rel].
+  - (* ERelease *)
+    destruct (k_thr ks i0) as [t|] eqn:Ei; [|apply thread_facts_same; norets].
+    destruct (k_ret t) as [[h| |cls]|] eqn:Er;
+      try (apply thread_facts_same; norets).
+    destruct (k_rel t) eqn:Erl; [apply thread_facts_same; norets|].
+    assert (G : forall ks' rk,
+              k_thr ks' = upd (k_thr ks) i0 (Some {| k_src := k_src t; k_passed := k_passed t; k_ret := Some (OConn h); k_rel := true |}) ->
+              o_ign rk = false -> (forall r, ~ In (i, r) (o_rets rk)) ->
+              thread_facts ks ks' (ERelease i0) rk i).
+    { intros ks' rk Hk Hig Hr. repeat split.
+      - intros t0 r E Hret. rewrite Hk. upd_cases i i0; [subst i0|eauto].
+        assert (t0 = t) by congruence; subst t0. eexists. split; [reflexivity|]. cbn. congruence.
+      - intros t' E Hrel. rewrite Hk in E. revert E. upd_cases i i0.
+        + subst i0. intros _. right. auto.
+        + intros E. left. eauto.
+      - intros r Hin. exfalso. exact (Hr r Hin). }
+    match goal with |- context[existsb ?f ?l] => destruct (existsb f l) end; cbn [fst snd].
+    + apply G; [reflexivity|reflexivity|]. norets.
+    + apply G; [reflexivity|reflexivity|]. norets.
+  - (* ECancel *)
+    destruct (k_d ks i0) as [[a [| |cls f]]|] eqn:Ed; cbn [fst snd];
+      (repeat split; cbn; eauto; norets).
+Qed.
+
+Inductive kreach : trace -> kstate -> Prop :=
+| kr_nil : kreach [] kinit
+| kr_snoc c ks e o :
+    kreach c ks -> obs_eqb (canon o) (snd (kstep ks e)) = true ->
+    kreach (c ++ [(e, o)]) (fst (kstep ks e)).
+
+Lemma kreach_inv c ks :
+  kreach c ks ->
+  kinv ks /\
+  (forall i r, returned_in c i r -> exists t, k_thr ks i = Some t /\ k_ret t = Some r) /\
+  (forall i t, k_thr ks i = Some t -> k_rel t = true -> released_in c i).
+Proof.
+  induction 1 as [|c ks e o Hr (K & J1 & J2) Hacc].
+  - split; [exact kinv_init|]. split.
+    + intros i r (e & o & [] & _).
+    + cbn. intros; discriminate.
+  - split; [now apply kinv_kstep|].
+    destruct (obs_eqb_fields _ _ Hacc) as (Hign & Hrets & Hcl).
+    split.
+    + intros i r (e0 & o0 & Hin & Hret). destruct (kstep_thread_facts ks e i) as (F1 & _ & F3).
+      apply in_app_iff in Hin. destruct Hin as [Hin|[E|[]]].
+      * destruct (J1 i r) as (t & Et & Hrt); [exists e0, o0; auto|]. exact (F1 t r Et Hrt).
+      * inversion E; subst e0 o0. rewrite Hrets in Hret. exact (F3 r Hret).
+    + intros i t' Et' Hrel. destruct (kstep_thread_facts ks e i) as (_ & F2 & _).
+      destruct (F2 t' Et' Hrel) as [(t & Et & Hrt)|[-> Hig]].
+      * destruct (J2 i t Et Hrt) as (o0 & Hin & Hi0). exists o0. split; [apply in_app_iff; auto|exact Hi0].
+      * exists o. split; [apply in_app_iff; right; left; reflexivity|congruence].
+Qed.
+
+Lemma kaccepts_kreach pre : forall c0 ks0 post,
+  kreach c0 ks0 -> kaccepts_from ks0 (pre ++ post) = true ->
+  exists ks, kreach (c0 ++ pre) ks /\ kaccepts_from ks post = true.
+Proof.
+  induction pre as [|[e o] pre IH]; intros c0 ks0 post Hr Ha.
+  - exists ks0. rewrite app_nil_r. auto.
+  - cbn in Ha. destruct (kstep ks0 e) as [ks1 rk] eqn:Es.
+    apply andb_true_iff in Ha. destruct Ha as [Ha1 Ha2].
+    assert (Hr1 : kreach (c0 ++ [(e, o)]) ks1).
+    { replace ks1 with (fst (kstep ks0 e)) by now rewrite Es.
+      constructor; [exact Hr|]. now rewrite Es. }
+    destruct (IH (c0 ++ [(e, o)]) ks1 post Hr1 Ha2) as (ks & Hk & Hp).
+    exists ks. rewrite <- app_assoc in Hk. auto.
+Qed.
+
+Lemma kstep_closed ks e : forall h, In h (o_closed (snd (kstep ks e))) -> In h (k_closed (fst (kstep ks e))).
+Proof.
+  assert (G : forall ign ks' a b c d h, In h (o_closed (kobs ign ks' a b c d)) -> In h (k_closed ks')).
+  { intros ign ks' a b c d h H. change (In h (dedup_nat (sort_nat (k_closed ks')))) in H.
+    apply In_dedup_nat in H. exact (proj1 (In_sort_nat h (k_closed ks')) H). }
+  intros h. unfold kstep, kignored.
+  repeat match goal with
+         | |- context[match ?x with _ => _ end] => destruct x eqn:?
+         | |- context[if ?x then _ else _] => destruct x eqn:?
+         end; cbn [fst snd]; apply G.
+Qed.
+
+(** K_P soundness, no-use-after-close clause: in a case that K_P accepts,
+    whenever a handle is observed closed after some event, every thread
+    observed (so far) to have been handed that handle has an applied release
+    event (so far). *)
+Theorem K_sound_no_use_after_close c :
+  kaccepts c = true ->
+  forall pre e o post, c = pre ++ (e, o) :: post ->
+  forall h, In h (o_closed (canon o)) ->
+  forall i, returned_in (pre ++ [(e, o)]) i (OConn h) -> released_in (pre ++ [(e, o)]) i.
+Proof.
+  intros Ha pre e o post -> h Hh i Hret.
+  replace (pre ++ (e, o) :: post) with ((pre ++ [(e, o)]) ++ post) in Ha by (rewrite <- app_assoc; reflexivity).
+  destruct (kaccepts_kreach (pre ++ [(e, o)]) [] kinit post kr_nil Ha) as (ks & Hk & _).
+  cbn in Hk. destruct (kreach_inv _ _ Hk) as (K & J1 & J2).
+  inversion Hk as [E|c1 ks1 e1 o1 Hk1 Hacc E1 E2].
+  - destruct pre; discriminate.
+  - apply app_inj_tail in E1. destruct E1 as [-> E1]. inversion E1; subst e1 o1.
+    destruct (obs_eqb_fields _ _ Hacc) as (_ & _ & Hcl).
+    rewrite Hcl in Hh. apply kstep_closed in Hh. rewrite E2 in Hh.
+    destruct (J1 i (OConn h) Hret) as (t & Et & Hrt).
+    pose proof (kj_ret ks K i t h Et Hrt) as Hkh.
+    exact (J2 i t Et (kj_closed ks K h Hh i t Et Hkh)).
+Qed.
+
+(** * [settle] reaches a quiescent state: after it, no dialer can start, no
+    failed dial can signal, no waiter can return without a further event *)
+
+Definition quiescent (s : state) : Prop :=
+  (forall c, step s (LSpawn c) = None) /\ (forall c, step s (LFailReady c) = None) /\
+  (forall i, step s (LWait i) = None).
+
+Definition not_ds (d : dstate) (s : state) (c : nat) : Prop :=
+  forall o, objs s c = Some o -> c_ds o <> d.
+
+Definition wait_done (s : state) (i : nat) : Prop := step s (LWait i) = None.
+
+Lemma fold_try_each (f : nat -> label) (P : state -> nat -> Prop) (Q : state -> Prop) :
+  (forall s c, Q s -> Q (try_step s (f c))) ->
+  (forall s c, Q s -> P (try_step s (f c)) c) ->
+  (forall s c c', Q s -> P s c -> P (try_step s (f c')) c) ->
+  forall l s, Q s ->
+  Q (fold_left (fun s c => try_step s (f c)) l s) /\
+  forall c, In c l -> P (fold_left (fun s c => try_step s (f c)) l s) c.
+Proof.
+  intros HQ Hdo Hst. induction l as [|x l IH]; intros s Hq; cbn; [split; [exact Hq|intros c []]|].
+  destruct (IH (try_step s (f x)) (HQ s x Hq)) as [H1 H2]. split; [exact H1|].
+  intros c [<-|Hin]; [|exact (H2 c Hin)].
+  clear H2 IH. assert (G : forall l s, Q s -> P s x -> P (fold_left (fun s c => try_step s (f c)) l s) x).
+  { induction l0 as [|y l0 IH]; intros s0 Hq0 Hp; cbn; [exact Hp|]. apply IH; [now apply HQ|now apply Hst]. }
+  apply G; [now apply HQ|now apply Hdo].
+Qed.
+
+Lemma fold_try_keeps (f : nat -> label) (Q : state -> Prop) :
+  (forall s c, Q s -> Q (try_step s (f c))) ->
+  forall l s, Q s -> Q (fold_left (fun s c => try_step s (f c)) l s).
+Proof.
+  intros HQ. induction l as [|x l IH]; intros s Hq; cbn; [exact Hq|]. apply IH. now apply HQ.
+Qed.
+
+Ltac step_cases H :=
+  unfold try_step, step in H |- *;
+  repeat match goal with
+         | |- context[match ?x with _ => _ end] => destruct x eqn:?
+         | |- context[if ?x then _ else _] => destruct x eqn:?
+         end.
+
+Lemma try_spawn_np s c : panicked s = false -> panicked (try_step s (LSpawn c)) = false.
+Proof. intros H. unfold try_step, step. rewrite H. destruct (objs s c) as [o|]; [|exact H]. destruct (c_ds o); try exact H. destruct (c_known o); exact H. Qed.
+
+Lemma try_spawn_self s c : panicked s = false -> not_ds DStart (try_step s (LSpawn c)) c.
+Proof.
+  intros H o. unfold try_step, step. rewrite H. destruct (objs s c) as [o0|] eqn:E; [|congruence].
+  destruct (c_ds o0) eqn:Ed; try (rewrite E; intros X; inversion X; subst; congruence).
+  destruct (c_known o0); cbn; rewrite upd_same; intros X; inversion X; subst; cbn; discriminate.
+Qed.
+
+Lemma try_spawn_other s c c' : not_ds DStart s c -> not_ds DStart (try_step s (LSpawn c')) c.
+Proof.
+  intros Hn o. unfold try_step, step. destruct (panicked s); [apply Hn|].
+  destruct (objs s c') as [o0|] eqn:E; [|apply Hn]. destruct (c_ds o0) eqn:Ed; try apply Hn.
+  destruct (c_known o0); cbn; (upd_cases c c'; [subst c'; intros _ _; exact (Hn o0 E Ed)|apply Hn]).
+Qed.
+
+Lemma try_failready_np s c : panicked s = false -> panicked (try_step s (LFailReady c)) = false.
+Proof. intros H. unfold try_step, step. rewrite H. destruct (objs s c) as [o|]; [|exact H]. destruct (c_ds o); exact H. Qed.
+
+Lemma try_failready_self s c : panicked s = false -> not_ds DClosing (try_step s (LFailReady c)) c.
+Proof.
+  intros H o. unfold try_step, step. rewrite H. destruct (objs s c) as [o0|] eqn:E; [|congruence].
+  destruct (c_ds o0) eqn:Ed; try (rewrite E; intros X; inversion X; subst; congruence).
+  cbn; rewrite upd_same; intros X; inversion X; subst; cbn; discriminate.
+Qed.
+
+Lemma try_failready_other d s c c' : d <> DDone -> not_ds d s c -> not_ds d (try_step s (LFailReady c')) c.
+Proof.
+  intros Hd Hn o. unfold try_step, step. destruct (panicked s); [apply Hn|].
+  destruct (objs s c') as [o0|] eqn:E; [|apply Hn]. destruct (c_ds o0) eqn:Ed; try apply Hn.
+  cbn. upd_cases c c'; [|apply Hn]. intros X; inversion X; subst; cbn. congruence.
+Qed.
+
+Lemma try_wait_objs s i : objs (try_step s (LWait i)) = objs s.
+Proof.
+  unfold try_step, step. destruct (panicked s); [reflexivity|].
+  destruct (thr s i) as [t|]; [|reflexivity]. destruct (t_pc t); try reflexivity.
+  destruct (t_obj t) as [c|]; [|reflexivity]. destruct (objs s c) as [o|]; [|reflexivity].
+  destruct (c_ready o); [|reflexivity]. destruct (c_err o); reflexivity.
+Qed.
+
+Lemma try_wait_np s i : panicked s = false -> panicked (try_step s (LWait i)) = false.
+Proof.
+  intros H. unfold try_step, step. rewrite H.
+  destruct (thr s i) as [t|]; [|exact H]. destruct (t_pc t); try exact H.
+  destruct (t_obj t) as [c|]; [|exact H]. destruct (objs s c) as [o|]; [|exact H].
+  destruct (c_ready o); [|exact H]. destruct (c_err o); exact H.
+Qed.
+
+Lemma try_wait_self s i : wait_done (try_step s (LWait i)) i.
+Proof.
+  unfold wait_done. destruct (step s (LWait i)) as [s'|] eqn:E; unfold try_step; rewrite E; [|exact E].
+  unfold step in E |- *. destruct (panicked s) eqn:Ep; [discriminate|].
+  destruct (thr s i) as [t|] eqn:Et; [|discriminate]. destruct (t_pc t) eqn:Epc; try discriminate.
+  destruct (t_obj t) as [c|] eqn:Eo; [|discriminate]. destruct (objs s c) as [o|] eqn:Ec; [|discriminate].
+  destruct (c_ready o); [|discriminate].
+  destruct (c_err o); inversion E; subst s'; cbn; rewrite Ep, upd_same; reflexivity.
+Qed.
+
+Lemma try_wait_other s i j : wait_done s i -> wait_done (try_step s (LWait j)) i.
+Proof.
+  intros H. destruct (Nat.eq_dec i j) as [->|Hn]; [apply try_wait_self|].
+  unfold wait_done in *. destruct (step s (LWait j)) as [s'|] eqn:E; unfold try_step; rewrite E; [|exact H].
+  assert (Ho : objs s' = objs s) by (pose proof (try_wait_objs s j) as X; unfold try_step in X; now rewrite E in X).
+  assert (Hp : panicked s' = panicked s /\ thr s' i = thr s i).
+  { unfold step in E. destruct (panicked s) eqn:Ep; [discriminate|].
+    destruct (thr s j) as [t|]; [|discriminate]. destruct (t_pc t); try discriminate.
+    destruct (t_obj t) as [c|]; [|discriminate]. destruct (objs s c) as [o|]; [|discriminate].
+    destruct (c_ready o); [|discriminate].
+    destruct (c_err o); inversion E; subst s'; cbn; rewrite upd_other by exact Hn; auto. }
+  destruct Hp as [Hp Ht]. unfold step in H |- *. rewrite Hp, Ht, Ho.
+  destruct (panicked s); [reflexivity|]. destruct (thr s i) as [t|]; [|reflexivity].
+  destruct (t_pc t); try reflexivity. destruct (t_obj t) as [c|]; [|reflexivity].
+  destruct (objs s c) as [o|]; [|reflexivity]. destruct (c_ready o); [|reflexivity].
+  destruct (c_err o); discriminate H.
+Qed.
+
+Theorem settle_quiescent s : reachable s -> quiescent (settle s).
+Proof.
+  intros Hr. pose proof (inv_reachable s Hr) as I.
+  pose proof (inv_reachable _ (settle_reachable s Hr)) as I'.
+  unfold settle in *.
+  set (s1 := fold_left (fun s c => try_step s (LSpawn c)) (tids s) s) in *.
+  set (s2 := fold_left (fun s c => try_step s (LFailReady c)) (tids s) s1) in *.
+  set (s3 := fold_left (fun s i => try_step s (LWait i)) (tids s) s2) in *.
+  (* phase 1 *)
+  destruct (fold_try_each (fun c => LSpawn c) (not_ds DStart) (fun s => panicked s = false)
+              try_spawn_np try_spawn_self (fun s c c' _ H => try_spawn_other s c c' H) (tids s) s (i_np s I))
+    as [Hp1 H1]. fold s1 in Hp1, H1.
+  (* phase 2 *)
+  destruct (fold_try_each (fun c => LFailReady c) (not_ds DClosing) (fun s => panicked s = false)
+              try_failready_np try_failready_self
+              (fun s c c' _ H => try_failready_other DClosing s c c' ltac:(discriminate) H) (tids s) s1 Hp1)
+    as [Hp2 H2]. fold s2 in Hp2, H2.
+  assert (H1' : forall c, In c (tids s) -> not_ds DStart s2 c).
+  { intros c Hin. unfold s2.
+    apply (fold_try_keeps (fun c => LFailReady c) (fun s => not_ds DStart s c)); [|exact (H1 c Hin)].
+    intros s0 c' Hn. apply try_failready_other; [discriminate|exact Hn]. }
+  (* phase 3 *)
+  destruct (fold_try_each (fun i => LWait i) wait_done (fun _ => True)
+              (fun _ _ _ => Logic.I) (fun s i _ => try_wait_self s i) (fun s i j _ H => try_wait_other s i j H)
+              (tids s) s2 Logic.I) as [_ H3]. fold s3 in H3.
+  assert (Hobjs : objs s3 = objs s2).
+  { unfold s3. apply (fold_try_keeps (fun i => LWait i) (fun s0 => objs s0 = objs s2)); [|reflexivity].
+    intros s0 i E. now rewrite try_wait_objs. }
+  assert (Htids : forall c o, objs s3 c = Some o -> In c (tids s)).
+  { intros c o Ho. rewrite Hobjs in Ho.
+    assert (G : forall (f : nat -> label) l s0, (forall c0 s', objs (try_step s' (f c0)) c = None <-> objs s' c = None) ->
+                objs (fold_left (fun s c => try_step s (f c)) l s0) c = None <-> objs s0 c = None).
+    { intros f l. induction l as [|x l IH]; intros s0 Hf; cbn; [tauto|]. rewrite IH by exact Hf. apply Hf. }
+    destruct (objs s c) as [o0|] eqn:E; [eapply i_obj_dom; eauto|exfalso].
+    assert (E2 : objs s2 c = None).
+    { unfold s2. apply G.
+      - intros c0 s'. unfold try_step, step. destruct (panicked s'); [tauto|].
+        destruct (objs s' c0) as [o1|] eqn:E1; [|tauto]. destruct (c_ds o1); try tauto.
+        cbn. upd_cases c c0; [subst; split; congruence|tauto].
+      - unfold s1. apply G; [|exact E].
+        intros c0 s'. unfold try_step, step. destruct (panicked s'); [tauto|].
+        destruct (objs s' c0) as [o1|] eqn:E1; [|tauto]. destruct (c_ds o1); try tauto.
+        destruct (c_known o1); cbn; (upd_cases c c0; [subst; split; congruence|tauto]). }
+    congruence. }
+  assert (Hth : forall i t, thr s3 i = Some t -> In i (tids s)).
+  { intros i t Ht.
+    assert (Ht3 : tids s3 = tids s).
+    { unfold s3, s2, s1.
+      assert (G : forall (f : nat -> label) l s0, (forall c0 s', tids (try_step s' (f c0)) = tids s') ->
+                  tids (fold_left (fun s c => try_step s (f c)) l s0) = tids s0).
+      { intros f l. induction l as [|x l IH]; intros s0 Hf; cbn; [reflexivity|]. rewrite IH by exact Hf. apply Hf. }
+      rewrite !G; auto; intros c0 s'; unfold try_step;
+        match goal with |- context[step ?a ?b] => destruct (step a b) as [s4|] eqn:E4 end; try reflexivity;
+        unfold step in E4;
+        repeat match type of E4 with
+               | context[match ?x with _ => _ end] => destruct x
+               | context[if ?x then _ else _] => destruct x
+               end; try discriminate; inversion E4; reflexivity. }
+    rewrite <- Ht3. apply (i_thr_dom s3 I'). congruence. }
+  repeat split.
+  - intros c. unfold step. destruct (panicked s3); [reflexivity|].
+    destruct (objs s3 c) as [o|] eqn:E; [|reflexivity].
+    destruct (c_ds o) eqn:Ed; try reflexivity. exfalso.
+    rewrite Hobjs in E. exact (H1' c (Htids c o ltac:(now rewrite Hobjs)) o E Ed).
+  - intros c. unfold step. destruct (panicked s3); [reflexivity|].
+    destruct (objs s3 c) as [o|] eqn:E; [|reflexivity].
+    destruct (c_ds o) eqn:Ed; try reflexivity. exfalso.
+    rewrite Hobjs in E. exact (H2 c (Htids c o ltac:(now rewrite Hobjs)) o E Ed).
+  - intros i. destruct (thr s3 i) as [t|] eqn:Et.
+    + exact (H3 i (Hth i t Et)).
+    + unfold step. rewrite Et. destruct (panicked s3); reflexivity.
+Qed.
+
+Theorem mrun_quiescent s e :
+  reachable s -> o_ign (snd (mrun s e)) = false -> quiescent (fst (mrun s e)).
+Proof.
+  intros Hr. unfold mrun. destruct (labels_of s e) as [l more].
+  destruct (step s l) as [s1|] eqn:E; cbn [fst snd].
+  - intros _. apply settle_quiescent, fold_try_list_reachable. eapply reachable_step; eauto.
+  - unfold observe, canon. cbn. discriminate.
+Qed.
+
+(** non-vacuity of the K_P soundness theorem: an accepted case in which a
+    handle is observed closed after both threads that received it released *)
+Definition ex_script : list event :=
+  [EReq 0 0 true; EReq 1 0 true; EPass 0; EPass 1; EDial 0 true; ERelease 0; ERelease 0; ERelease 1;
+   EReq 2 0 true]%nat.
+
+Definition ex_case : trace := combine ex_script (ktrace kinit ex_script).
+
+Example ex_kaccepts :
+  kaccepts ex_case = true /\ check_case ex_case = [] /\
+  returned_in (firstn 8 ex_case) 1 (OConn 0) /\
+  (exists e o, nth_error ex_case 7 = Some (e, o) /\ In 0%nat (o_closed (canon o))).
+Proof.
+  split; [vm_compute; reflexivity|]. split; [vm_compute; reflexivity|]. split.
+  - exists (EDial 0 true). eexists. split.
+    + vm_compute. do 4 right. left. reflexivity.
+    + vm_compute. right. left. reflexivity.
+  - do 2 eexists. split; [vm_compute; reflexivity|]. vm_compute. left. reflexivity.
+Qed.
